@@ -36,6 +36,16 @@ theorem C15_blocking_calls_hold_no_loop_lock :
         (match protOf a with | some (.callUnder _) => true | _ => false) &&
         a.held.any loopLocks.contains)) = [] := by decide +kernel
 
+/-- **The receive loops never perform a carrier `Send`** (nor invoke a callback
+    that does): every such call reachable from `serve` / `recvLoop` on the
+    loop's own goroutine would let a full carrier stall the loop, and with it
+    every stream of the tunnel.  Close / cancel / rejection frames and window
+    updates are sent from goroutines of their own or by the application's
+    goroutines.  Reachability is computed in Lean over the call edges
+    regenerated from the sources (interface calls resolved by name). -/
+theorem C15_receive_loops_never_send :
+    loopSendViolations accessTable = [] ∧ loopRootIds.length = loopRoots.length := by decide +kernel
+
 /-! ### lock order -/
 
 /-- **The lock-order graph of the current sources has no cycle** (so no
